@@ -208,7 +208,7 @@ func mergePossibleTypes(sources []*ast.Schema, mergedTypes map[string]*ast.Defin
 func mergeRootObjects(aTypes, bTypes map[string]*ast.Definition, a, b *ast.Definition) (*ast.Definition, error) {
 	var fields ast.FieldList = a.Fields
 	for _, f := range b.Fields {
-		if common.IsBuiltinName(f.Name) || isNodeField(f) {
+		if common.IsBuiltinName(f.Name) || (common.IsQueryObjectName(a.Name) && isNodeField(f)) {
 			continue
 		}
 
